@@ -149,6 +149,9 @@ var misuseTemplates = []struct{ class, src string }{
 	{"missing-struct-field", "st.Z"}, {"missing-struct-field", "st.missing"}, {"missing-struct-field", "st.a"}, {"missing-struct-field", "st.Z.k"}, {"missing-struct-field", "st!.Z"}, {"missing-struct-field", "[st.Z]"},
 	{"missing-struct-field", "se.nope"}, {"missing-struct-field", "mu.nope"}, {"missing-struct-field", "se.nope ?? 'x'"}, {"missing-struct-field", "typeof mu.missing"},
 	{"missing-struct-field", "[se.Name, se.zz]"}, {"missing-struct-field", "mu.L + mu.r"},
+	// a method of the struct's type is no field of it
+	{"missing-struct-field", "t0.Year"}, {"missing-struct-field", "t0.IsZero"}, {"missing-struct-field", "t0!.Unix"}, {"missing-struct-field", "[t0.Month]"}, {"missing-struct-field", "t0.String ?? 'x'"},
+	{"missing-struct-field", "typeof t0.Weekday"}, {"missing-struct-field", "t0.Location.String"}, {"missing-struct-field", "$m = t0.UTC, 1"},
 	{"assert-null", "z!.k"}, {"assert-null", "nilp!.k"}, {"assert-null", "m.missing!.k"}, {"assert-null", "undefinedname!.a"},
 	{"host-error", "ferr(1)"}, {"host-error", "1 + ferr(2)"}, {"host-error", "[ferr(1)]"}, {"host-error", "fid(ferr(1))"},
 	{"bad-assignment", "n0 = 1"}, {"bad-assignment", "m.k = 1"}, {"bad-assignment", "1 = 2"}, {"bad-assignment", "($v) = 1"},
